@@ -16,8 +16,11 @@ Kinds of untrusted data (declared by the rule for the entry names, propagated fl
     "A"  nothing is trusted (a value decoded from tnetstring / JSON: any of None/bool/int/float/str/bytes/list/dict)
 
 Modelled implicit raisers (DESIGN E5 + OverflowError/RecursionError where magnitude/depth is data driven)
-    d[k] / d.pop(k) without default      KeyError  (A: also IndexError/TypeError; trusted container + untrusted key: KeyError/IndexError)
-    seq[i] (non-slice) on V              IndexError
+    d[k] / d.pop(k) without default      KeyError  (A: also IndexError/TypeError; trusted container + untrusted key: KeyError for a mapping,
+                                         IndexError for a sequence, both when the kind of the container is not evident - _Frame.container_kind:
+                                         annotation incl. type aliases, construction, class-level / self.x bindings, mapping-only / sequence-only
+                                         methods called on it, and last an enclosing `except KeyError`)
+    seq[i] (non-slice) on V              IndexError (KeyError when the container is evidently a mapping)
     assert <mentions untrusted>          AssertionError
     int(x) / float(x)                    ValueError (A: + TypeError, int(A) + OverflowError)
     a, b = x  (x of kind A)              ValueError, TypeError
@@ -29,6 +32,11 @@ Modelled implicit raisers (DESIGN E5 + OverflowError/RecursionError where magnit
     recursion carrying untrusted data    RecursionError (unless the rule names the bound)
   Everything else raises nothing *in the model*.  A call that receives untrusted data and can neither be
   resolved nor found in the tables is an AnalysisError (strict), never a silent pass.
+
+Callable values (MayRaise.callable_values / value_nodes): a call through a local, a parameter, ``TABLE[k]`` / ``TABLE.get(k)`` or ``X[i]``
+    is the union of what the callee expression can denote - builtins of the table, repository functions / classes, externals; a parameter
+    is resolved over every call site of its function (the function must only ever be called); tables are module-level dict displays,
+    ``dict(..)``, comprehensions over other tables, and registries filled by ``TABLE[k] = f`` / registration decorators (table_items).
 
 Nothing here imports or executes repository code.
 """
@@ -549,6 +557,7 @@ class Config:
     strict: bool = True
     local_types: object = None  # f(frame) -> {local name | attribute chain: (rel, class qual)}: types the rule knows beyond the annotations (annotations win)
     taint_through_mutation: bool = False  # opt-in: `buf.extend(x)` / `lst.append(x)` with untrusted x makes the container untrusted (kind V)
+    yield_from_delegates: bool = False  # opt-in: `yield from g(x)` makes the delegating generator yield what g yields (its kind joins the result kind)
 
 
 class _CachedModel:
@@ -821,6 +830,693 @@ class MayRaise:
         if head in mod.imports:
             return ".".join(mod.imports[head].split(".") + ch.split(".")[1:])
         return ch
+
+
+    # ---- container kinds: does `c[k]` raise KeyError (mapping) or IndexError (sequence)? --------------------------------------
+    def annotation_container_kind(self, mod, ann, depth: int = 0):
+        """'dict' | 'seq' | None for a type annotation: builtin / typing / collections container names, ``Optional[..]`` / ``X | None`` /
+        ``Annotated[..]`` / ``Final[..]`` wrappers, module-level type aliases (``Cache = dict[int, ...]``, also imported ones) and
+        repository classes deriving from a builtin container (``class X(dict)``, ``TypedDict``, ``NamedTuple``)."""
+        if ann is None or depth > 5:
+            return None
+        if isinstance(ann, ast.Constant) and isinstance(ann.value, str):
+            try:
+                ann = ast.parse(ann.value, mode="eval").body
+            except SyntaxError:
+                return None
+        if isinstance(ann, ast.Constant):
+            return None
+        if isinstance(ann, ast.BinOp) and isinstance(ann.op, ast.BitOr):
+            parts = [p for p in (ann.left, ann.right) if not (isinstance(p, ast.Constant) and p.value is None)]
+            kinds = {self.annotation_container_kind(mod, p, depth + 1) for p in parts}
+            return kinds.pop() if len(kinds) == 1 else None
+        if isinstance(ann, ast.Subscript):
+            base = (attr_chain(ann.value) or "").split(".")[-1]
+            if base in ("Optional", "Final", "ClassVar", "Annotated", "Required", "NotRequired"):
+                inner = ann.slice.elts[0] if isinstance(ann.slice, ast.Tuple) and ann.slice.elts else ann.slice
+                return self.annotation_container_kind(mod, inner, depth + 1)
+            if base == "Union":
+                elts = ann.slice.elts if isinstance(ann.slice, ast.Tuple) else [ann.slice]
+                parts = [p for p in elts if not (isinstance(p, ast.Constant) and p.value is None)]
+                kinds = {self.annotation_container_kind(mod, p, depth + 1) for p in parts}
+                return kinds.pop() if len(kinds) == 1 else None
+            return self.annotation_container_kind(mod, ann.value, depth + 1)
+        if isinstance(ann, (ast.Name, ast.Attribute)):
+            ch = attr_chain(ann)
+            if not ch:
+                return None
+            r = self.model.resolve_name(mod, ann)
+            if r is not None and isinstance(r[1], ast.ClassDef):
+                for m, c in self.model.mro(r[0].rel, r[1]._qual):
+                    for b in c.bases:
+                        last = (attr_chain(b.value if isinstance(b, ast.Subscript) else b) or "").split(".")[-1]
+                        if last in _DICT_TYPE_NAMES or last == "TypedDict":
+                            return "dict"
+                        if last in _SEQ_TYPE_NAMES or last == "NamedTuple":
+                            return "seq"
+                return None
+            c = self._const_with_module(mod, ann)
+            if c is not None:
+                return self.annotation_container_kind(c[0], c[1], depth + 1)
+            head, last = ch.split(".")[0], ch.split(".")[-1]
+            if "." not in ch and (mod.get(ch) is not None or mod.assigns(ch)):
+                return None  # shadowed by a module-level definition that is not an alias we understand
+            if "." in ch and not (head in mod.imports and mod.imports[head].split(".")[0] in ("typing", "collections", "typing_extensions", "types")):
+                return None
+            if last in _DICT_TYPE_NAMES:
+                return "dict"
+            if last in _SEQ_TYPE_NAMES:
+                return "seq"
+        return None
+
+    def value_container_kind(self, mod, e, name_kind=None, depth: int = 0):
+        """'dict' | 'seq' | None for an expression that *constructs* (or names) a container: displays, comprehensions, ``dict(..)`` /
+        ``list(..)`` / ``sorted(..)`` ..., a call of a repository function whose return annotation says so, ``A if c else B`` with both
+        arms alike; names are resolved by ``name_kind`` (the frame) or as module-level constants."""
+        if e is None or depth > 5:
+            return None
+        if isinstance(e, (ast.Dict, ast.DictComp)):
+            return "dict"
+        if isinstance(e, (ast.List, ast.ListComp, ast.Tuple, ast.JoinedStr)):
+            return "seq"
+        if isinstance(e, ast.Constant):
+            return "seq" if isinstance(e.value, (bytes, str)) else None
+        if isinstance(e, ast.IfExp):
+            a, b = self.value_container_kind(mod, e.body, name_kind, depth + 1), self.value_container_kind(mod, e.orelse, name_kind, depth + 1)
+            return a if a == b else None
+        if isinstance(e, ast.BinOp) and isinstance(e.op, (ast.BitOr, ast.Add)):
+            a, b = self.value_container_kind(mod, e.left, name_kind, depth + 1), self.value_container_kind(mod, e.right, name_kind, depth + 1)
+            return a if a == b else None
+        if isinstance(e, ast.Call):
+            ch = attr_chain(e.func) or ""
+            r = self.model.resolve_name(mod, e.func) if ch else None
+            if r is not None:
+                if isinstance(r[1], (ast.FunctionDef, ast.AsyncFunctionDef)) and not _has_yield(r[1]) and not isinstance(r[1], ast.AsyncFunctionDef):
+                    return self.annotation_container_kind(r[0], r[1].returns, depth + 1)
+                if isinstance(r[1], ast.ClassDef):
+                    return self.annotation_container_kind(mod, e.func, depth + 1)
+                return None
+            if ch and "." not in ch and ch not in mod.imports and mod.get(ch) is None and not mod.assigns(ch):
+                if ch in ("dict",):
+                    return "dict"
+                if ch in ("list", "tuple", "bytes", "bytearray", "memoryview", "sorted", "str", "range"):
+                    return "seq"
+            dotted = self.resolved_dotted(mod, e.func)
+            if dotted in ("collections.defaultdict", "collections.OrderedDict", "collections.Counter", "collections.ChainMap", "types.MappingProxyType"):
+                return "dict"
+            if dotted in ("collections.deque",):
+                return "seq"
+            if isinstance(e.func, ast.Attribute) and e.func.attr == "copy" and not e.args:
+                return self.value_container_kind(mod, e.func.value, name_kind, depth + 1)
+            return None
+        if isinstance(e, ast.Name) and name_kind is not None:
+            return name_kind(e, depth + 1)
+        if isinstance(e, (ast.Name, ast.Attribute)):
+            return self.const_container_kind(mod, e, depth + 1)
+        return None
+
+    def const_container_kind(self, mod, e, depth: int = 0):
+        """Container kind of a module-level constant (``NAME`` / imported ``NAME`` / ``module.NAME``) bound exactly once."""
+        c = self._const_with_module(mod, e)
+        if c is None:
+            return None
+        m, val = c
+        name = e.id if isinstance(e, ast.Name) else e.attr
+        if isinstance(e, ast.Name) and e.id in mod.imports:
+            name = mod.imports[e.id].split(".")[-1]
+        for st in m.tree.body:
+            if isinstance(st, ast.AnnAssign) and isinstance(st.target, ast.Name) and st.target.id == name:
+                k = self.annotation_container_kind(m, st.annotation, depth + 1)
+                if k:
+                    return k
+        return self.value_container_kind(m, val, None, depth + 1)
+
+    def self_attr_container_kind(self, mod, cls, attr: str):
+        """Container kind of ``self.<attr>`` in class ``cls``: a class-level annotation along the MRO, else what every ``self.<attr> = ..``
+        in the methods of those classes constructs (all alike)."""
+        k = (mod.rel, cls._qual, attr)
+        cache = self.__dict__.setdefault("_self_ck", {})
+        if k in cache:
+            return cache[k]
+        cache[k] = None
+        kinds = set()
+        found = None
+        for m, c in self.model.mro(mod.rel, cls._qual):
+            for st in c.body:
+                if isinstance(st, ast.AnnAssign) and isinstance(st.target, ast.Name) and st.target.id == attr and found is None:
+                    found = self.annotation_container_kind(m, st.annotation)
+                elif isinstance(st, ast.Assign) and any(isinstance(t, ast.Name) and t.id == attr for t in st.targets):
+                    kinds.add(self.value_container_kind(m, st.value))
+            for n in ast.walk(c):
+                tg, val, ann = [], None, None
+                if isinstance(n, ast.Assign):
+                    tg, val = n.targets, n.value
+                elif isinstance(n, ast.AnnAssign):
+                    tg, val, ann = [n.target], n.value, n.annotation
+                elif isinstance(n, ast.AugAssign):
+                    tg = [n.target]
+                for t in tg:
+                    if isinstance(t, ast.Attribute) and t.attr == attr and isinstance(t.value, ast.Name) and t.value.id == "self":
+                        ka = self.annotation_container_kind(m, ann) if ann is not None else None
+                        kinds.add(ka or (self.value_container_kind(m, val) if val is not None and not isinstance(n, ast.AugAssign) else None))
+        if found is None and kinds and None not in kinds and len(kinds) == 1:
+            found = next(iter(kinds))
+        cache[k] = found
+        return found
+
+    # ---- tables of functions and callable values --------------------------------------------------------------------------
+    def table_items(self, mod, name: str, depth: int = 0):
+        """(defining Module, [(key node, value node)]) of the module-level mapping constant ``name`` (of ``mod`` or imported into it), bound
+        exactly once to a dict display (``**OTHER`` expanded), ``A | B``, ``dict(k=v, ..)`` / ``dict(OTHER, k=v)`` or a dict comprehension
+        over another such table (``{k: dec for k, (dec, _) in T.items()}``: the target pattern is matched structurally against the
+        entries; ``if`` filters are ignored - a superset of the entries).  None when it is not such a table."""
+        if depth > 5:
+            return None
+        c = self._const_with_module(mod, ast.Name(id=name, ctx=ast.Load()))
+        if c is None:
+            return None
+        m, val = c
+        items = self._items_of(m, val, depth)
+        if items is None and isinstance(val, ast.Call) and not val.args and not val.keywords and attr_chain(val.func) in ("dict", "collections.OrderedDict", "OrderedDict"):
+            items = []
+        if items is None:
+            return None
+        tname = name if name not in mod.imports or m is mod else mod.imports[name].split(".")[-1]
+        reg = self.registered_items(m, tname)
+        return None if reg is None else (m, items + reg)
+
+    def registered_items(self, m, name: str):
+        """Entries added to the module-level mapping ``name`` of ``m`` after its construction, inside ``m``: ``NAME[k] = v`` at module level,
+        and registration functions - ``def reg(f): NAME[k] = f`` used as ``@reg`` / ``reg(f)``, or a decorator factory
+        ``def reg_as(k): def deco(f): NAME[k] = f; return f; return deco`` used as ``@reg_as(k)`` / ``reg_as(k)(f)``: every function so
+        decorated / passed is an entry.  [] when there are none; None when the table is filled in a way that is not evident
+        (``.update`` / ``.setdefault``, passed on or aliased, a registrar that escapes as a value, a stored value that is not its parameter)."""
+        cache = self.__dict__.setdefault("_reg_items", {})
+        k = (m.rel, name)
+        if k not in cache:
+            cache[k] = None
+            cache[k] = self._registered_items(m, name)
+        return cache[k]
+
+    def _registered_items(self, m, name):
+        READS = ("get", "items", "keys", "values", "pop", "popitem", "clear", "copy")
+        out = []
+        registrars = []  # (function that stores its parameter, parameter name, key expr)
+        for n in ast.walk(m.tree):
+            if not (isinstance(n, ast.Name) and n.id == name):
+                continue
+            cf = enclosing_func(n)
+            if cf is not None and any(n.id in _locals_of(g) and not any(isinstance(x, ast.Global) and name in x.names for x in _own_nodes(g)) for g in _func_chain(cf)):
+                continue  # a local of the same name
+            p = getattr(n, "_parent", None)
+            if isinstance(n.ctx, ast.Store) or isinstance(p, (ast.AnnAssign,)) and p.target is n:
+                continue  # the binding itself (exactly one: _const_with_module)
+            if isinstance(p, ast.Subscript) and p.value is n:
+                if isinstance(p.ctx, ast.Load) or isinstance(p.ctx, ast.Del):
+                    continue
+                st = getattr(p, "_parent", None)
+                if not (isinstance(st, ast.Assign) and len(st.targets) == 1 and st.targets[0] is p):
+                    return None
+                if cf is None:
+                    out.append((p.slice, st.value))
+                    continue
+                a = cf.args
+                params = [x.arg for x in a.posonlyargs + a.args]
+                if not (isinstance(st.value, ast.Name) and st.value.id in params
+                        and not any(isinstance(x, ast.Name) and x.id == st.value.id and isinstance(x.ctx, (ast.Store, ast.Del)) for x in _own_nodes(cf))):
+                    return None
+                registrars.append((cf, st.value.id, p.slice))
+                continue
+            if isinstance(p, ast.Attribute) and p.value is n:
+                pp = getattr(p, "_parent", None)
+                if isinstance(pp, ast.Call) and pp.func is p and p.attr in READS:
+                    continue
+                return None
+            if isinstance(p, ast.Compare) or (isinstance(p, (ast.For, ast.comprehension)) and p.iter is n):
+                continue
+            if isinstance(p, ast.Call) and p.func is not n and isinstance(p.func, ast.Name) and p.func.id in ("len", "sorted", "list", "tuple", "set", "frozenset", "iter", "bool", "max", "min", "repr", "str"):
+                continue
+            if isinstance(p, (ast.If, ast.While, ast.Assert, ast.UnaryOp, ast.BoolOp, ast.IfExp)) and getattr(p, "test", None) is n or isinstance(p, (ast.UnaryOp, ast.BoolOp)):
+                continue
+            if isinstance(p, ast.keyword) or isinstance(p, ast.Starred):
+                return None
+            if isinstance(p, ast.Dict) and any(v is n for kk, v in zip(p.keys, p.values) if kk is None):
+                continue  # {**NAME}: read
+            return None
+        for reg, pname, key in registrars:
+            a = reg.args
+            idx = [x.arg for x in a.posonlyargs + a.args].index(pname)
+            outer = enclosing_func(reg)
+            if outer is None:
+                factory = None
+            else:
+                # decorator factory: the registrar is a closure that the (module-level) factory returns, and nothing else is done with it
+                if enclosing_func(outer) is not None or not isinstance(getattr(outer, "_parent", None), ast.Module):
+                    return None
+                uses = [x for x in ast.walk(outer) if isinstance(x, ast.Name) and x.id == reg.name and isinstance(x.ctx, ast.Load)]
+                if not uses or not all(isinstance(getattr(x, "_parent", None), ast.Return) for x in uses):
+                    return None
+                factory = outer
+            head = factory or reg
+            if not isinstance(getattr(head, "_parent", None), ast.Module) or m.get(head.name) is not head:
+                return None
+            for x in ast.walk(m.tree):
+                if not (isinstance(x, ast.Name) and x.id == head.name and isinstance(x.ctx, ast.Load)):
+                    continue
+                cf = enclosing_func(x)
+                if cf is not None and any(x.id in _locals_of(g) for g in _func_chain(cf)):
+                    continue
+                p = getattr(x, "_parent", None)
+                call = p if isinstance(p, ast.Call) and p.func is x else None
+                if factory is not None:
+                    if call is None:
+                        return None
+                    x, p = call, getattr(call, "_parent", None)  # D(k) now plays the role of the registrar
+                    call = p if isinstance(p, ast.Call) and p.func is x else None
+                    kparams = [y.arg for y in factory.args.posonlyargs + factory.args.args]
+                    kexpr = key
+                    if isinstance(key, ast.Name) and key.id in kparams and kparams.index(key.id) < len(x.args):
+                        kexpr = x.args[kparams.index(key.id)]
+                else:
+                    kexpr = key
+                if isinstance(p, (ast.FunctionDef, ast.AsyncFunctionDef)) and any(d is x for d in p.decorator_list):
+                    if idx != 0:
+                        return None
+                    out.append((kexpr, ast.copy_location(ast.Name(id=p.name, ctx=ast.Load()), p)))
+                    continue
+                if call is not None and not any(isinstance(y, ast.Starred) for y in call.args) and idx < len(call.args):
+                    out.append((kexpr, call.args[idx]))
+                    continue
+                return None
+        # registration from other modules (`compat.NAME[k] = f`, `from compat import register`) is not looked for
+        return out
+
+    def _items_of(self, m, e, depth):
+        if isinstance(e, ast.Dict):
+            out = []
+            for k, v in zip(e.keys, e.values):
+                if k is None:
+                    sub = self._items_of(m, v, depth + 1)
+                    if sub is None:
+                        return None
+                    out.extend(sub)
+                else:
+                    out.append((k, v))
+            return out
+        if isinstance(e, ast.Name):
+            if e.id in m.imports:
+                return None  # tables spread over several modules: not modelled
+            r = self.table_items(m, e.id, depth + 1)
+            return None if r is None else r[1]
+        if isinstance(e, ast.BinOp) and isinstance(e.op, ast.BitOr):
+            a, b = self._items_of(m, e.left, depth + 1), self._items_of(m, e.right, depth + 1)
+            return None if a is None or b is None else a + b
+        if isinstance(e, ast.Call) and isinstance(e.func, ast.Name) and e.func.id == "dict" and "dict" not in m.imports and m.get("dict") is None and len(e.args) <= 1:
+            out = []
+            if e.args:
+                sub = self._items_of(m, e.args[0], depth + 1)
+                if sub is None:
+                    return None
+                out.extend(sub)
+            for kw in e.keywords:
+                if kw.arg is None:
+                    sub = self._items_of(m, kw.value, depth + 1)
+                    if sub is None:
+                        return None
+                    out.extend(sub)
+                else:
+                    out.append((ast.Constant(value=kw.arg), kw.value))
+            return out
+        if isinstance(e, ast.DictComp) and len(e.generators) == 1 and not e.generators[0].is_async:
+            g = e.generators[0]
+            it = g.iter
+            elems = None
+            if isinstance(it, ast.Call) and isinstance(it.func, ast.Attribute) and not it.args and not it.keywords and it.func.attr in ("items", "values", "keys"):
+                src = self._items_of(m, it.func.value, depth + 1)
+                if src is None:
+                    return None
+                if it.func.attr == "items":
+                    elems = [ast.Tuple(elts=[k, v], ctx=ast.Load()) for k, v in src]
+                elif it.func.attr == "values":
+                    elems = [v for _, v in src]
+                else:
+                    elems = [k for k, _ in src]
+            elif isinstance(it, (ast.Tuple, ast.List)) and not any(isinstance(x, ast.Starred) for x in it.elts):
+                elems = list(it.elts)
+            elif isinstance(it, ast.Name) and it.id not in m.imports:
+                c = self._const_with_module(m, it)
+                if c is not None and isinstance(c[1], (ast.Tuple, ast.List)) and not any(isinstance(x, ast.Starred) for x in c[1].elts):
+                    elems = list(c[1].elts)
+                else:
+                    src = self._items_of(m, it, depth + 1)
+                    elems = None if src is None else [k for k, _ in src]
+            if elems is None:
+                return None
+            out = []
+            for el in elems:
+                env: dict = {}
+                if not _bind_pattern(g.target, el, env):
+                    return None
+                k, v = _subst(e.key, env), _subst(e.value, env)
+                if k is None or v is None:
+                    return None
+                out.append((k, v))
+            return out
+        return None
+
+    def callable_values(self, mod, fn, e, depth: int = 0):
+        """What the expression ``e`` (evaluated inside function ``fn`` of ``mod``; fn None: at module level) can denote when it is *called*:
+        a list of ('fn', Module, FunctionDef) | ('cls', Module, ClassDef) | ('builtin', name) | ('ext', dotted name) | ('none',), or None
+        when that is not evident.  Followed (value_nodes): builtins of the call table, repository functions / classes, externals of the
+        rule, nested functions, ``A if c else B`` / ``A or B``, ``TABLE[k]`` / ``TABLE.get(k[, default])`` over a module-level table
+        (display, comprehension over another table, registry filled by a decorator), ``X[<int>]`` of tuple entries, a local bound exactly
+        once to any of those, and a parameter that is never rebound - then the union over *every* call site of ``fn`` (which must be
+        mentioned only as the callee of calls)."""
+        nodes = self.value_nodes(mod, fn, e, depth)
+        if nodes is None:
+            return None
+        out = []
+        for m, f, n in nodes:
+            if isinstance(n, tuple):
+                out.append(n)  # already classified (nested function)
+                continue
+            if isinstance(n, ast.Constant) and n.value is None:
+                out.append(("none",))
+                continue
+            if not isinstance(n, (ast.Name, ast.Attribute)):
+                return None
+            ch = attr_chain(n)
+            if not ch:
+                return None
+            r = self.model.resolve_name(m, n)
+            if r is not None:
+                if isinstance(r[1], ast.ClassDef):
+                    out.append(("cls", r[0], r[1]))
+                elif isinstance(r[1], (ast.FunctionDef, ast.AsyncFunctionDef)):
+                    out.append(("fn", r[0], r[1]))
+                else:
+                    return None
+                continue
+            if isinstance(n, ast.Name) and n.id not in m.imports and m.get(n.id) is None and not m.assigns(n.id):
+                obj = getattr(builtins, n.id, None)
+                if (isinstance(obj, type) and issubclass(obj, BaseException)) or n.id in BUILTIN_CALLS:
+                    out.append(("builtin", n.id))
+                    continue
+                return None
+            dotted = self.resolved_dotted(m, n)
+            for name in (dotted, ch):
+                if name in self.ext:
+                    out.append(("ext", name))
+                    break
+            else:
+                return None
+        return out
+
+    def value_nodes(self, mod, fn, e, depth: int = 0):
+        """[(Module, function | None, node)]: the *terminal* expressions ``e`` can evaluate to - global names / dotted names, constants,
+        tuple displays, anything that is not reduced further - or None when that is not evident (see callable_values for what is followed)."""
+        if e is None or depth > 8:
+            return None
+        if isinstance(e, ast.IfExp):
+            a, b = self.value_nodes(mod, fn, e.body, depth + 1), self.value_nodes(mod, fn, e.orelse, depth + 1)
+            return None if a is None or b is None else a + b
+        if isinstance(e, ast.BoolOp) and isinstance(e.op, ast.Or):
+            parts = [self.value_nodes(mod, fn, v, depth + 1) for v in e.values]
+            return None if any(p is None for p in parts) else [x for p in parts for x in p]
+        if isinstance(e, ast.NamedExpr):
+            return self.value_nodes(mod, fn, e.value, depth + 1)
+        tbl, default = None, None
+        if isinstance(e, ast.Subscript) and isinstance(e.value, (ast.Name, ast.Attribute)):
+            tbl = e.value
+        elif isinstance(e, ast.Call) and isinstance(e.func, ast.Attribute) and e.func.attr == "get" and 1 <= len(e.args) <= 2 and not e.keywords \
+                and isinstance(e.func.value, (ast.Name, ast.Attribute)):
+            tbl = e.func.value
+            default = e.args[1] if len(e.args) == 2 else ast.Constant(value=None)
+        is_local_tbl = isinstance(tbl, ast.Name) and fn is not None and any(tbl.id in _locals_of(g) for g in _func_chain(fn))
+        if tbl is not None and not is_local_tbl and (attr_chain(tbl) or "").split(".")[0] not in ("self", "cls"):
+            c = self._const_with_module(mod, tbl)
+            if c is None:
+                return None
+            name = tbl.id if isinstance(tbl, ast.Name) else tbl.attr
+            if isinstance(tbl, ast.Name) and tbl.id in mod.imports:
+                name = mod.imports[tbl.id].split(".")[-1]
+            r = self.table_items(c[0], name, depth + 1)
+            if r is None:
+                # not a mapping: a module-level tuple / list of values indexed by position
+                if isinstance(e, ast.Subscript) and isinstance(c[1], (ast.Tuple, ast.List)) and c[1].elts and not any(isinstance(x, ast.Starred) for x in c[1].elts):
+                    out = []
+                    for v in c[1].elts:
+                        got = self.value_nodes(c[0], None, v, depth + 1)
+                        if got is None:
+                            return None
+                        out.extend(got)
+                    return out
+                return None
+            if not r[1]:
+                return None
+            out = []
+            for _, v in r[1]:
+                got = self.value_nodes(r[0], None, v, depth + 1)
+                if got is None:
+                    return None
+                out.extend(got)
+            if default is not None:
+                got = self.value_nodes(mod, fn, default, depth + 1)
+                if got is None:
+                    return None
+                out.extend(got)
+            return out
+        if isinstance(e, ast.Subscript) and isinstance(e.slice, ast.Constant) and isinstance(e.slice.value, int) and not isinstance(e.slice.value, bool):
+            # X[i] where X denotes tuple displays (entries of a table of tuples, a local bound to one ...)
+            base = self.value_nodes(mod, fn, e.value, depth + 1)
+            if base is None:
+                return None
+            out = []
+            for m, f, n in base:
+                if isinstance(n, ast.Constant) and n.value is None:
+                    continue  # guarded by the code (`if entry is not None`)
+                if not (isinstance(n, (ast.Tuple, ast.List)) and not any(isinstance(x, ast.Starred) for x in n.elts) and -len(n.elts) <= e.slice.value < len(n.elts)):
+                    return None
+                got = self.value_nodes(m, f, n.elts[e.slice.value], depth + 1)
+                if got is None:
+                    return None
+                out.extend(got)
+            return out
+        if isinstance(e, ast.Name) and fn is not None and e.id not in _locals_of(fn):
+            for g in _func_chain(fn):
+                nd = _nested_def_of(g, e.id)
+                if nd is not None:
+                    return [(mod, fn, ("fn", mod, nd))]
+                if g is not fn and e.id in _locals_of(g):
+                    return None  # a variable of an enclosing function
+        if isinstance(e, ast.Name) and fn is not None and e.id in _locals_of(fn):
+            a = fn.args
+            params = [x.arg for x in a.posonlyargs + a.args + a.kwonlyargs]
+            stores = [n for n in _own_nodes(fn) if isinstance(n, ast.Name) and n.id == e.id and isinstance(n.ctx, (ast.Store, ast.Del))]
+            if e.id in params:
+                if stores:
+                    return None
+                got = self.callable_param_values(mod, fn, e.id, depth + 1)
+                return None if got is None else [(mod, fn, t) for t in got]
+            if (a.vararg and a.vararg.arg == e.id) or (a.kwarg and a.kwarg.arg == e.id):
+                return None
+            if len(stores) != 1:
+                return None
+            binds = [n for n in _own_nodes(fn) if isinstance(n, (ast.Assign, ast.AnnAssign, ast.NamedExpr)) and getattr(n, "value", None) is not None
+                     and any(t is stores[0] for t in (n.targets if isinstance(n, ast.Assign) else [n.target]))]
+            if len(binds) == 1:
+                return self.value_nodes(mod, fn, binds[0].value, depth + 1)
+            # a tuple target bound to a table entry: `dec, enc = TABLE[k]`
+            for n in _own_nodes(fn):
+                if isinstance(n, ast.Assign) and len(n.targets) == 1 and isinstance(n.targets[0], (ast.Tuple, ast.List)) \
+                        and not any(isinstance(x, ast.Starred) for x in n.targets[0].elts) and any(x is stores[0] for x in n.targets[0].elts):
+                    i = [x is stores[0] for x in n.targets[0].elts].index(True)
+                    sub = ast.copy_location(ast.Subscript(value=n.value, slice=ast.Constant(value=i), ctx=ast.Load()), n.value)
+                    return self.value_nodes(mod, fn, sub, depth + 1)
+            return None
+        if isinstance(e, (ast.Name, ast.Attribute)):
+            ch = attr_chain(e)
+            if not ch:
+                return None
+            if fn is not None and any(ch.split(".")[0] in _locals_of(g) for g in _func_chain(fn)):
+                return None
+            if isinstance(e, ast.Name) and e.id not in mod.imports and mod.get(e.id) is None:
+                # a module-level alias bound once to something evident: `_default_codec = identity`
+                c = self._const_with_module(mod, e)
+                if c is not None and not isinstance(c[1], (ast.Constant, ast.Lambda)):
+                    return self.value_nodes(c[0], None, c[1], depth + 1)
+            return [(mod, fn, e)]
+        if isinstance(e, (ast.Constant, ast.Tuple, ast.List)):
+            return [(mod, fn, e)]
+        return None
+
+    def callable_param_values(self, mod, fn, pname: str, depth: int = 0):
+        """Union of what every call site of ``fn`` passes for its parameter ``pname`` (see callable_values), or None: the parameter is
+        rebound, ``fn`` escapes as a value somewhere (stored, passed on, decorated), a call uses ``*`` / ``**``, or an argument is not evident."""
+        key = (mod.rel, getattr(fn, "_qual", fn.name), id(fn), pname)
+        cache = self.__dict__.setdefault("_cpv", {})
+        if key in cache:
+            return cache[key]
+        cache[key] = None  # cycles (a parameter passed on in a recursive call adds nothing) are cut here
+        cache[key] = out = self._callable_param_values(mod, fn, pname, depth)
+        return out
+
+    def _callable_param_values(self, mod, fn, pname, depth):
+        if depth > 6 or fn.decorator_list and any(d not in ("staticmethod", "classmethod") for d in decorators(fn)):
+            return None
+        a = fn.args
+        pos_params = [x.arg for x in a.posonlyargs + a.args]
+        defaults = dict(zip(reversed(pos_params), reversed(a.defaults)))
+        for x, d in zip(a.kwonlyargs, a.kw_defaults):
+            if d is not None:
+                defaults[x.arg] = d
+        owner = getattr(fn, "_parent", None)
+        is_method = isinstance(owner, ast.ClassDef)
+        implicit_first = is_method and "staticmethod" not in decorators(fn)
+        outer = enclosing_func(fn)
+        if outer is not None:
+            scopes = [(mod, outer)]
+        else:
+            scopes = [(m, m.tree) for m in modules_mentioning(self.model, fn.name)]
+        sites = []
+        for m, scope in scopes:
+            for n in ast.walk(scope):
+                if n is fn:
+                    continue
+                mention = (isinstance(n, ast.Name) and n.id == fn.name and isinstance(n.ctx, ast.Load)) or (isinstance(n, ast.Attribute) and n.attr == fn.name)
+                if not mention:
+                    continue
+                cf = enclosing_func(n)
+                if isinstance(n, ast.Name):
+                    if outer is None:
+                        if is_method:
+                            continue  # a bare name never denotes a method
+                        if cf is not None and any(n.id in _locals_of(g) for g in _func_chain(cf)):
+                            continue  # somebody's local of the same name
+                        r = self.model.resolve_name(m, n)
+                        if r is None or r[1] is not fn:
+                            continue  # another definition of the same name
+                else:
+                    if outer is not None:
+                        continue  # attribute of the same name: not the nested function
+                    if not is_method:
+                        r = self.model.resolve_name(m, n)
+                        if r is None or r[1] is not fn:
+                            if r is None and attr_chain(n.value) and attr_chain(n.value).split(".")[0] in m.imports:
+                                tgt = self.resolved_dotted(m, n)
+                                if not tgt.endswith("." + fn.name) or self.model.module_by_dotted(tgt.rsplit(".", 1)[0]) is not mod:
+                                    continue
+                            else:
+                                continue
+                p = getattr(n, "_parent", None)
+                if not (isinstance(p, ast.Call) and p.func is n):
+                    return None  # the function escapes as a value
+                sites.append((m, cf, p, isinstance(n, ast.Attribute)))
+        if not sites:
+            return None
+        out = []
+        for m, cf, call, via_attr in sites:
+            if any(isinstance(x, ast.Starred) for x in call.args) or any(k.arg is None for k in call.keywords):
+                return None
+            params = pos_params
+            if implicit_first and via_attr:
+                r = self.model.resolve_name(m, call.func.value) if attr_chain(call.func.value) else None
+                explicit_self = r is not None and isinstance(r[1], ast.ClassDef) and "classmethod" not in decorators(fn)
+                if not explicit_self:
+                    params = pos_params[1:]
+            arg = None
+            if pname in params and params.index(pname) < len(call.args):
+                arg = call.args[params.index(pname)]
+            else:
+                arg = next((k.value for k in call.keywords if k.arg == pname), None)
+            if arg is None:
+                arg = defaults.get(pname)
+                if arg is None:
+                    return None
+                got = self.callable_values(mod, None, arg, depth + 1)
+            elif cf is fn and isinstance(arg, ast.Name) and arg.id == pname:
+                continue  # passed on unchanged in a recursive call
+            else:
+                got = self.callable_values(m, cf, arg, depth + 1)
+            if got is None:
+                return None
+            out.extend(got)
+        seen, uniq = set(), []
+        for t in out:
+            k = (t[0],) + tuple(id(x) if isinstance(x, ast.AST) else (x.rel if hasattr(x, "rel") else x) for x in t[1:])
+            if k not in seen:
+                seen.add(k)
+                uniq.append(t)
+        return uniq
+
+
+_DICT_TYPE_NAMES = frozenset("dict Dict Mapping MutableMapping defaultdict DefaultDict OrderedDict Counter ChainMap MappingProxyType".split())
+_SEQ_TYPE_NAMES = frozenset("list List tuple Tuple Sequence MutableSequence bytes bytearray memoryview str deque Deque ByteString range".split())
+_DICT_ONLY_METHODS = frozenset("get items keys values setdefault popitem fromkeys".split())
+_SEQ_ONLY_METHODS = frozenset("append extend insert sort reverse appendleft popleft extendleft startswith endswith decode encode tobytes join split".split())
+
+
+def _bind_pattern(target, node, env) -> bool:
+    """Match a comprehension target against an entry *node* structurally: names bind nodes, tuple patterns need tuple displays."""
+    if isinstance(target, ast.Name):
+        env[target.id] = node
+        return True
+    if isinstance(target, (ast.Tuple, ast.List)) and isinstance(node, (ast.Tuple, ast.List)) and len(target.elts) == len(node.elts) \
+            and not any(isinstance(x, ast.Starred) for x in list(target.elts) + list(node.elts)):
+        return all(_bind_pattern(t, n, env) for t, n in zip(target.elts, node.elts))
+    return False
+
+
+def _subst(e, env):
+    """The entry node the comprehension's key / value expression denotes under ``env`` (None: not evident)."""
+    if isinstance(e, ast.Name):
+        return env.get(e.id, e)
+    if isinstance(e, (ast.Constant, ast.Attribute)):
+        return e
+    if isinstance(e, ast.Tuple):
+        elts = [_subst(x, env) for x in e.elts]
+        return None if any(x is None for x in elts) else ast.Tuple(elts=elts, ctx=ast.Load())
+    if isinstance(e, ast.Subscript) and isinstance(e.slice, ast.Constant) and isinstance(e.slice.value, int):
+        v = _subst(e.value, env)
+        if isinstance(v, (ast.Tuple, ast.List)) and -len(v.elts) <= e.slice.value < len(v.elts):
+            return v.elts[e.slice.value]
+    return None
+
+
+def _locals_of(fn) -> set:
+    loc = getattr(fn, "_locals_cache", None)
+    if loc is None:
+        a = fn.args
+        loc = {x.arg for x in a.posonlyargs + a.args + a.kwonlyargs}
+        if a.vararg:
+            loc.add(a.vararg.arg)
+        if a.kwarg:
+            loc.add(a.kwarg.arg)
+        for n in _own_nodes(fn):
+            if isinstance(n, ast.Name) and isinstance(n.ctx, ast.Store):
+                loc.add(n.id)
+        fn._locals_cache = loc
+    return loc
+
+
+def _func_chain(fn):
+    while fn is not None:
+        yield fn
+        fn = enclosing_func(fn)
+
+
+def _nested_def_of(fn, name):
+    todo = list(ast.iter_child_nodes(fn))
+    while todo:
+        n = todo.pop()
+        if isinstance(n, (ast.FunctionDef, ast.AsyncFunctionDef)):
+            if n.name == name:
+                return n
+            continue
+        if isinstance(n, (ast.ClassDef, ast.Lambda)):
+            continue
+        todo.extend(ast.iter_child_nodes(n))
+    return None
 
 
 LOGGING_METHODS = frozenset("debug info warning warn error critical exception log isEnabledFor".split())
@@ -1376,6 +2072,10 @@ class _Frame:
             return "V" if k else None
         if isinstance(e, ast.Lambda):
             return None  # not executed here
+        if isinstance(e, ast.YieldFrom) and self.eng.cfg.yield_from_delegates:
+            k = self.ev(e.value)
+            self.ret = join(self.ret, k)  # the items of the inner generator are items of this one
+            return k
         if isinstance(e, (ast.Await, ast.YieldFrom)):
             return self.ev(e.value)
         if isinstance(e, ast.Yield):
@@ -1423,19 +2123,109 @@ class _Frame:
                 return "V"
             if _membership_guarded(guards, norm(e.slice), norm(e.value)):
                 return "V"
+            if self.container_kind(e.value) == "dict":
+                if not store:
+                    self.add("KeyError", e, "lookup in a mapping with untrusted content")
+                return "V"
             self.add("IndexError", e, "index into untrusted-length data")
-            if not isinstance(e.slice, ast.Constant) or not isinstance(e.slice.value, int):
-                if ki is not None and not store:
-                    pass
             return "V"
         # trusted container, untrusted key
         if store:
             return None
         if _membership_guarded(guards, norm(e.slice), norm(e.value)):
             return "V"
-        self.add("KeyError", e, "trusted container indexed by an untrusted key")
-        self.add("IndexError", e, "trusted container indexed by an untrusted key")
+        # a mapping raises KeyError, a sequence IndexError; both when the kind of the container is not evident
+        ck = self.container_kind(e.value)
+        if ck is None and self._keyerror_handled_here(e):
+            ck = "dict"
+        if ck != "seq":
+            self.add("KeyError", e, "trusted container indexed by an untrusted key")
+        if ck != "dict":
+            self.add("IndexError", e, "trusted container indexed by an untrusted key")
         return "V"
+
+    def container_kind(self, e, depth: int = 0):
+        """'dict' | 'seq' | None: is the container denoted by ``e`` a mapping (``c[k]`` raises KeyError) or a sequence (IndexError)?
+        Evidence, in this order: the annotation of the local / parameter (type aliases resolved), what every binding of the local
+        constructs, for ``self.x`` the class-level annotation or every ``self.x = ..`` of the class, for module-level constants their
+        single binding, and finally the methods the function calls on it (``.get`` / ``.items`` / ``.setdefault`` .. exist on mappings
+        only, ``.append`` / ``.extend`` / ``.sort`` .. on sequences only)."""
+        if depth > 5:
+            return None
+        eng = self.eng
+        cache = self.__dict__.setdefault("_ck_cache", {})
+        text = norm(e)
+        if text in cache:
+            return cache[text]
+        cache[text] = None
+        cache[text] = k = self._container_kind(e, depth)
+        return k
+
+    def _container_kind(self, e, depth):
+        eng = self.eng
+        if isinstance(e, ast.Name) and self._is_local(e.id):
+            a = self.fn.args
+            anns = [x.annotation for x in a.posonlyargs + a.args + a.kwonlyargs if x.arg == e.id and x.annotation is not None]
+            anns += [n.annotation for n in _own_nodes(self.fn) if isinstance(n, ast.AnnAssign) and isinstance(n.target, ast.Name) and n.target.id == e.id]
+            kinds = {eng.annotation_container_kind(self.mod, x) for x in anns}
+            if len(kinds) == 1 and None not in kinds:
+                return kinds.pop()
+            is_param = e.id in {x.arg for x in a.posonlyargs + a.args + a.kwonlyargs} or (a.vararg and a.vararg.arg == e.id) or (a.kwarg and a.kwarg.arg == e.id)
+            if a.vararg and a.vararg.arg == e.id:
+                return "seq"
+            if a.kwarg and a.kwarg.arg == e.id:
+                return "dict"
+            stores = [n for n in _own_nodes(self.fn) if isinstance(n, ast.Name) and n.id == e.id and isinstance(n.ctx, ast.Store)]
+            binds = [n for n in _own_nodes(self.fn) if isinstance(n, (ast.Assign, ast.AnnAssign, ast.NamedExpr)) and getattr(n, "value", None) is not None
+                     and any(isinstance(t, ast.Name) and t.id == e.id for t in (n.targets if isinstance(n, ast.Assign) else [n.target]))]
+            if not is_param and stores and len(stores) == len(binds):
+                kinds = {eng.value_container_kind(self.mod, b.value, lambda n, d: self.container_kind(n, d), depth + 1) for b in binds}
+                if len(kinds) == 1 and None not in kinds:
+                    return kinds.pop()
+            return self._usage_container_kind(e)
+        if isinstance(e, ast.Name):
+            return eng.const_container_kind(self.mod, e, depth + 1)
+        if isinstance(e, ast.Attribute):
+            ch = attr_chain(e)
+            if not ch:
+                return None
+            if isinstance(e.value, ast.Name) and e.value.id == "self" and self.cls is not None and self._is_local("self"):
+                return eng.self_attr_container_kind(self.mod, self.cls, e.attr) or self._usage_container_kind(e)
+            if not self._is_local(ch.split(".")[0]):
+                return eng.const_container_kind(self.mod, e, depth + 1)
+            return self._usage_container_kind(e)
+        if isinstance(e, (ast.Dict, ast.DictComp, ast.List, ast.ListComp, ast.Tuple, ast.Call, ast.IfExp, ast.Constant)):
+            return eng.value_container_kind(self.mod, e, lambda n, d: self.container_kind(n, d), depth + 1)
+        return None
+
+    def _usage_container_kind(self, e):
+        text = norm(e)
+        seen = set()
+        for n in _own_nodes(self.fn):
+            if isinstance(n, ast.Call) and isinstance(n.func, ast.Attribute) and norm(n.func.value) == text:
+                if n.func.attr in _DICT_ONLY_METHODS:
+                    seen.add("dict")
+                elif n.func.attr in _SEQ_ONLY_METHODS:
+                    seen.add("seq")
+        return seen.pop() if len(seen) == 1 else None
+
+    def _keyerror_handled_here(self, node) -> bool:
+        """The lookup sits in the body of a ``try`` of this function with a handler naming KeyError itself and none naming IndexError /
+        LookupError: the code treats the container as a mapping (used only when nothing else tells the kind of the container)."""
+        child, p = node, getattr(node, "_parent", None)
+        while p is not None and child is not self.fn:
+            if isinstance(p, ast.Try) and any(child is s for s in p.body):
+                names = []
+                for h in p.handlers:
+                    if h.type is not None:
+                        try:
+                            names += self.eng.handler_names(self.mod, h.type)
+                        except AnalysisError:
+                            return False
+                if "KeyError" in names:
+                    return "IndexError" not in names and "LookupError" not in names
+            child, p = p, getattr(p, "_parent", None)
+        return False
 
     def property_access(self, e: ast.Attribute, store: bool, value_kind):
         """`self.attr` / `<annotated local>.attr` that is a property of a repository class: analyse it."""
@@ -1789,7 +2579,22 @@ class _Frame:
                 return self._table_entries(e.id, _depth + 1)
             return None
 
-        return of(vals[-1])
+        got = of(vals[-1])
+        if got is None and _depth == 0 and name not in self.mod.imports:
+            # tables built by comprehension over another table, dict(..) calls ...: the engine's structural evaluation
+            r = self.eng.table_items(self.mod, name)
+            if r is not None and r[0] is self.mod and r[1] and all(isinstance(v, ast.Name) for _, v in r[1]):
+                got = [v for _, v in r[1]]
+        elif got is not None and _depth == 0 and name not in self.mod.imports:
+            # entries added after the display: `TABLE[k] = f` at module level, registration functions / decorators
+            reg = self.eng.registered_items(self.mod, name)
+            if reg is None:
+                raise AnalysisError(f"mayraise: the dispatch table {name} of {self.mod.rel} is also filled in a way that is not modelled")
+            for _, v in reg:
+                if not isinstance(v, ast.Name):
+                    raise AnalysisError(f"mayraise: the dispatch table {name} of {self.mod.rel} gets an entry of unmodelled shape: {norm(v)[:60]}")
+                got.append(v)
+        return got
 
     def _dispatch_table(self, f):
         """Name of the module-level table when the callee expression ``f`` is ``TABLE[key]`` or a local bound exactly once (in this function)
@@ -1854,8 +2659,16 @@ class _Frame:
                 for v in entries:
                     r = eng.model.resolve_name(self.mod, v)
                     if r is None or not isinstance(r[1], (ast.FunctionDef, ast.AsyncFunctionDef)):
+                        vals = eng.callable_values(self.mod, self.fn, f)  # builtins (int / float ...), classes, externals as entries
+                        if vals:
+                            return self._call_values(call, vals, pos, kw, star, dstar, tainted)
                         raise AnalysisError(f"mayraise: table {tbl} holds a non-function {v.id}")
                     targets.append((r[0], r[1], self.bind_params(r[1], pos, kw, star, dstar, False)))
+        if targets is None and ((isinstance(f, ast.Name) and self._is_local(f.id) and self._nested_def(f.id) is None) or isinstance(f, (ast.Subscript, ast.IfExp))):
+            # a local / parameter holding a callable: the builtins, repository functions or table entries it can denote
+            vals = eng.callable_values(self.mod, self.fn, f)
+            if vals:
+                return self._call_values(call, vals, pos, kw, star, dstar, tainted)
         if targets is None:
             # struct
             sk = self.struct_call(call, recv_kind, tainted)
@@ -1918,12 +2731,93 @@ class _Frame:
             # logging.debug(...) / <module logger>.debug("...%r", untrusted): the arguments were evaluated above; the logging package
             # formats lazily and swallows formatting errors (Handler.handleError only prints), the call returns None
             return None
+        if isinstance(f, ast.Attribute) and isinstance(f.value, ast.Name):
+            # `obj.method(..)` where every binding of obj (a local, or a module global) constructs an instance of one repository class
+            rc = self._constructed_class(f.value.id)
+            r = eng.model.method(rc[0].rel, rc[1]._qual, f.attr) if rc is not None else None
+            if r is not None and not _is_cm(r[1]):
+                return self.into(r[0], r[1], self.bind_params(r[1], pos, kw, star, dstar, self._method_kind(r[1]) != "static", recv_kind), call)
         if eng.cfg.strict:
             raise AnalysisError(
                 f"mayraise: call on untrusted data that is neither resolved nor in the tables: {self.mod.rel}::{self.fn._qual} `{norm(call)[:90]}`"
             )
         eng.unmodelled.add(f"{self.mod.rel}::{self.fn._qual} `{norm(call)[:90]}`")
         return join(recv_kind, star, dstar, *pos, *kw.values())
+
+    def _constructed_class(self, name: str):
+        """(Module, ClassDef) when every binding of ``name`` - a local of this function, or a module global (its module-level bindings and
+        those in functions declaring it ``global``) - is a constructor call ``Cls(..)`` of one repository class; None otherwise."""
+        mod, model = self.mod, self.eng.model
+        is_global = any(isinstance(n, ast.Global) and name in n.names for n in _own_nodes(self.fn)) or not self._is_local(name)
+        vals = []
+        if is_global:
+            if name in mod.imports or mod.get(name) is not None:
+                return None
+            vals = list(mod.assigns(name))
+            stores = sum(1 for n in _own_nodes(mod.tree) if isinstance(n, ast.Name) and n.id == name and isinstance(n.ctx, (ast.Store, ast.Del)))
+            if not vals or stores != len(vals):
+                return None
+            for g in ast.walk(mod.tree):
+                if isinstance(g, (ast.FunctionDef, ast.AsyncFunctionDef)) and any(isinstance(n, ast.Global) and name in n.names for n in _own_nodes(g)):
+                    st = [n for n in _own_nodes(g) if isinstance(n, ast.Name) and n.id == name and isinstance(n.ctx, (ast.Store, ast.Del))]
+                    bs = [n.value for n in _own_nodes(g) if isinstance(n, ast.Assign) and len(n.targets) == 1 and isinstance(n.targets[0], ast.Name) and n.targets[0].id == name]
+                    if len(st) != len(bs):
+                        return None
+                    vals += bs
+        else:
+            a = self.fn.args
+            if name in {x.arg for x in a.posonlyargs + a.args + a.kwonlyargs} or (a.vararg and a.vararg.arg == name) or (a.kwarg and a.kwarg.arg == name):
+                return None
+            st = [n for n in _own_nodes(self.fn) if isinstance(n, ast.Name) and n.id == name and isinstance(n.ctx, (ast.Store, ast.Del))]
+            vals = [n.value for n in _own_nodes(self.fn) if isinstance(n, ast.Assign) and len(n.targets) == 1 and isinstance(n.targets[0], ast.Name) and n.targets[0].id == name]
+            if not vals or len(st) != len(vals):
+                return None
+        found = None
+        for v in vals:
+            if not (isinstance(v, ast.Call) and attr_chain(v.func)):
+                return None
+            r = model.resolve_name(mod, v.func)
+            if r is None or not isinstance(r[1], ast.ClassDef) or (found is not None and found[1] is not r[1]):
+                return None
+            found = r
+        return found
+
+    def _call_values(self, call, vals, pos, kw, star, dstar, tainted):
+        """The call of a callable value that denotes one of ``vals`` (MayRaise.callable_values): the union of the callees' behaviour."""
+        eng = self.eng
+        k = None
+        allk = join(star, dstar, *pos, *kw.values())
+        for v in vals:
+            if v[0] == "none":
+                continue  # calling None: the code guards it (`if f is not None`) - a TypeError on trusted data is not modelled anywhere
+            if v[0] == "builtin":
+                if v[1] in BUILTIN_CALLS:
+                    k = join(k, self.builtin_call(call, pos, kw, star, dstar, name=v[1]))
+                continue  # exception classes: constructing one raises nothing
+            if v[0] == "ext":
+                excs, kind = eng.ext[v[1]]
+                if tainted:
+                    for x in excs:
+                        self.add(x, call, f"{v[1]} on untrusted data")
+                k = join(k, allk if kind == "join" else (kind if tainted else None))
+                continue
+            if v[0] == "cls":
+                ts = self.constructor(v[1], v[2])
+                for m2, f2 in ts:
+                    self.into(m2, f2, self.bind_params(f2, pos, kw, star, dstar, True, "V" if tainted and f2.name == "__post_init__" else None), call, dispatched=True)
+                k = join(k, "V" if tainted else None)
+                continue
+            _, m2, f2 = v
+            if _is_cm(f2):
+                continue
+            if enclosing_func(f2) is not None and m2 is self.mod:
+                env2 = dict(self.env)
+                env2.update(self.bind_params(f2, pos, kw, star, dstar, False))
+            else:
+                skip = isinstance(getattr(f2, "_parent", None), ast.ClassDef) and self._method_kind(f2) == "class"
+                env2 = self.bind_params(f2, pos, kw, star, dstar, skip)
+            k = join(k, self.into(m2, f2, env2, call, dispatched=len(vals) > 1))
+        return k
 
     def struct_call(self, call, recv_kind, tainted):
         f = call.func
@@ -1943,8 +2837,8 @@ class _Frame:
             return None
         return NotImplemented
 
-    def builtin_call(self, call, pos, kw, star, dstar):
-        name = call.func.id
+    def builtin_call(self, call, pos, kw, star, dstar, name=None):
+        name = name or call.func.id
         on_v, on_a, res = BUILTIN_CALLS[name]
         allk = join(star, dstar, *pos, *kw.values())
         if name == "str" and len(call.args) >= 2 and allk:
@@ -1997,9 +2891,11 @@ class _Frame:
                     self.add("IndexError", call, ".pop(i) on untrusted data")
                 return "A"
             if not has_default and not guarded and (argk or recv_kind):
-                if call.args:
+                ck = self.container_kind(f.value) if isinstance(f.value, (ast.Name, ast.Attribute)) else None
+                if call.args and ck != "seq":
                     self.add("KeyError", call, ".pop(k) without default, untrusted key")
-                self.add("IndexError", call, ".pop() on untrusted-length data")
+                if ck != "dict":
+                    self.add("IndexError", call, ".pop() on untrusted-length data")
             return join(recv_kind, argk) and "V"
         if meth in ("index", "remove") and (recv_kind or argk):
             self.add("ValueError", call, f".{meth}() on untrusted content")
